@@ -40,7 +40,7 @@ def profiles(thorough, sd):
     if thorough:
         return [("wide4", dict(wide, MaxNodes=4, Mod=1, Sel=0, Always=2, **full), 8),
                 ("deep5", dict(deep, MaxNodes=5, Mod=1, Sel=0, Always=0, **full), 8),
-                ("deep6", dict(deep6, MaxNodes=6, Mod=8, Sel=sd % 8, Always=0, **full), 8)]
+                ("deep6", dict(deep6, MaxNodes=6, Mod=12, Sel=sd % 12, Always=0, **full), 8)]
     # quick: the search itself is sampled (sub-trees of a seeded slice of the 2-/3-node trees), small trees are all kept
     return [("wide4", dict(wide, MaxNodes=4, Mod=1, Sel=sd, Always=2, PruneFrom=2, PruneMod=12), 5),
             ("deep5", dict(deep, MaxNodes=5, Mod=1, Sel=sd, Always=0, PruneFrom=3, PruneMod=16), 4),
@@ -263,7 +263,7 @@ def golist_trees(chk, testbin, cases_path, tmpd, thorough, sd):
     env = C.base_env({"VERIF_CASES": cases_path, "VERIF_OUT": out, "VERIF_TMP": tmpd, "VERIF_GO": C.GO124,
                       "VERIF_SEED": str(sd), "VERIF_GL_ALWAYS_LINE": "1", "TMPDIR": chk.rd.sub("tmp"),
                       "VERIF_GL_ALLUPTO": "1" if thorough else "0",
-                      "VERIF_GL_PER_MILLE": "25" if thorough else "14",
+                      "VERIF_GL_PER_MILLE": "25" if thorough else "10",
                       "VERIF_GL_PER_MILLE_TRIVIAL": "3" if thorough else "2"})
     env.pop("GOROOT", None)
     so = run_test(testbin, "TestVerifGoListTrees", env, 3000)
@@ -513,8 +513,8 @@ def pick_program_cases(cases_path, hdr, want, sd):
 def run_programs(chk, cases_path, hdr, thorough, sd):
     """second binding: the resolved files as the compiled program sees them (string, []byte, embed.FS)"""
     rd = chk.rd.path
-    batches = 3 if thorough else 1
-    per = 24 if thorough else 12
+    batches = 2 if thorough else 1
+    per = 20 if thorough else 12
     chosen = pick_program_cases(cases_path, hdr, batches * per, sd)
     if len(chosen) < per:
         raise C.Undecided("too few accepted cases for the compiled programs")
@@ -695,7 +695,8 @@ def check(chk):
             C.log("compiled programs %.1fs" % (time.time() - t0))
     finally:
         shutil.rmtree(tmpd, ignore_errors=True)
-    chk.cov["exhaustive_within_bounds"] = bool(thorough)
+    chk.cov["exhaustive_within_bounds"] = ({"wide4": True, "deep5": True, "deep6": "one hash class in twelve (seeded)",
+                                            "directive_lines_len7": True} if thorough else False)
     chk.assumptions += [
         "names and patterns are drawn from a fixed alphabet (12 names, 65 patterns) chosen to hit every rule; lower-case only",
         "file names/patterns are modelled as character sequences; 'U' stands for U+00E9",
